@@ -365,7 +365,8 @@ def c19_r2(ctx):
             good = comp_struct(arg) in (("read_graphql_file($0)", [("sorted(walk_graphql_files(path))", [])]), ("read_graphql_file(path=$0)", [("sorted(walk_graphql_files(path=path))", [])]))
     ctx.check(good, key(lf, "directory"), f"a directory must be read as the newline-joined contents of its sorted GraphQL files; got {[x.text() for x in o]}", lf.loc(), okmsg="directory -> '\\n'.join(read(f) for f in sorted(files))")
     o = Interp(lf, mk(False)).run()
-    ctx.check(len(o) == 1 and norm(o[0].value) == "read_graphql_file(path.resolve())", key(lf, "file"), f"single file: {[x.text() for x in o]}", lf.loc(), okmsg="single file -> its content")
+    from ..absint import subst as _subst
+    ctx.check(len(o) == 1 and (norm(o[0].value) == "read_graphql_file(path.resolve())" or norm(strip_pre(_subst(o[0].value, o[0].env, deep=True))) == "read_graphql_file(path.resolve())"), key(lf, "file"), f"single file: {[x.text() for x in o]}", lf.loc(), okmsg="single file -> its content")
     wf = repo.func("schema:walk_graphql_files")
     # what the generator yields: every element of the recursive listing whose suffix is one of the three (decided on the
     # symbolic outcomes, so a local tuple, a module constant or a defaulted parameter are the same thing)
@@ -398,6 +399,19 @@ def c19_r2(ctx):
         ps = calls_named(f2.node, "parse")
         good = len(cs) == 1 and len(ps) == 1 and isinstance(allargs(ps[0])[0], ast.Name)
         ctx.check(good, key(f2, "source"), "text is not loaded through load_graphql_files_from_path and parsed as one document", f2.loc(), okmsg=f"{f2.qualname}: one document from all files")
+    # the two schema sources agree on whether the built schema counts as already validated (else one and the same schema is accepted
+    # from one source and rejected from the other by assert_valid_schema in main)
+    modes = {}
+    for fn, builder in (("get_graphql_schema_from_path", "build_ast_schema"), ("get_graphql_schema_from_url", "build_client_schema")):
+        f3 = repo.func("schema:" + fn)
+        bs = calls_named(f3.node, builder)
+        if len(bs) != 1:
+            raise AnalysisError(f"{fn}: expected one {builder} call, found {len(bs)}")
+        av = kw(bs[0], "assume_valid")
+        modes[fn] = "False" if av is None else str(norm(av))
+    ctx.check(len(set(modes.values())) == 1, "schema::get_graphql_schema_from_path~get_graphql_schema_from_url::validation mode",
+              f"the schema sources disagree on assume_valid: {modes}: a schema that assert_valid_schema rejects when loaded from a file is accepted when introspected (or the other way round)",
+              repo.func("schema:get_graphql_schema_from_path").loc(), okmsg=f"file and URL sources build the schema with the same assume_valid ({sorted(set(modes.values()))[0]})")
 
 
 _INTRO = [
